@@ -13,6 +13,7 @@ ORACLES = {
     'roots': orc.roots,
     'refine': orc.refine,
     'warmup': orc.warmup,
+    'graft': orc.graft,
 }
 
 
@@ -34,6 +35,7 @@ def run(plan, prop):
   oracles = [ORACLES[o] for o in plan.get('oracles', [])]
   ctx.log.add(op='INIT', st=sha_leaves(init_leaves))
   after_restore = False
+  rebase = False
   for idx, op in enumerate(plan['ops']):
     ctx.op_index = idx
     kind = op['op']
@@ -55,7 +57,8 @@ def run(plan, prop):
                                      else 'STEP'),
                  grads=grads, poisoned=set(poisoned), poisoned_now=pnow,
                  prev=prev, new=new, updates=ups, view=view, params=params,
-                 world=world, init_leaves=init_leaves)
+                 world=world, init_leaves=init_leaves, rebase=rebase)
+      rebase = False
       for o in oracles:
         o(ctx, rec)
       if signature(state2) != init_sig and plan.get('check_layout', True):
@@ -108,6 +111,7 @@ def run(plan, prop):
       if pt:
         ctx.probe('restore_on_refresh_tick')
       after_restore = True
+      rebase = True
       ctx.log.add(op=kind, at=k)
     elif kind == 'REJIT':
       world.incarnate()
@@ -115,6 +119,7 @@ def run(plan, prop):
     elif kind == 'CLOCK_JUMP':
       state = world.set_clock(state, int(op['to']))
       ctx.probe('clock_jump')
+      rebase = True
       ctx.log.add(op='CLOCK_JUMP', to=int(op['to']))
     else:
       raise ValueError(kind)
